@@ -33,21 +33,28 @@ func (r RawTime) Value() (t time.Time, valid bool) {
 		return
 	}
 	parsedTime, err := http.ParseTime(string(r))
-	if err != nil || !isGMT(parsedTime) {
+	if err != nil || !isGMT(string(r)) {
 		return
 	}
 	return parsedTime, true
 }
 
-// isGMT reports whether a parsed HTTP-date was given in GMT, as every
-// HTTP-date must be (RFC 9110 §5.6.7). The obsolete rfc850 layout that
-// http.ParseTime tries accepts any zone abbreviation and resolves it against
-// the process's local zone (or as offset 0 when it does not know it), so that
-// "Saturday, 01-Jan-00 02:00:00 CEST" would be read as some instant that
-// depends on where the process runs; such a value is not a valid HTTP-date.
-func isGMT(t time.Time) bool {
-	name, offset := t.Zone()
-	return offset == 0 && (name == "GMT" || name == "UTC")
+// isGMT reports whether the text of an HTTP-date is given in GMT, as every
+// HTTP-date is (RFC 9110 §5.6.7): the IMF-fixdate and rfc850 forms end in
+// "GMT" (or "UTC", see [parseHTTPDateCompat]), the asctime form has no zone and
+// ends in the year. [http.ParseTime] also accepts other zone abbreviations in
+// the obsolete rfc850 layout, which the time package then reads against the
+// process's local zone, so that "Saturday, 01-Jan-00 02:00:00 CEST" would be
+// some instant that depends on where the process runs; such a value is not a
+// valid HTTP-date. The test is on the text, not on the zone the parsed time
+// reports: for rfc850 dates that zone, too, comes from the local zone's
+// abbreviation table and is "BST" or "CET" for a correct "GMT" in some zones.
+func isGMT(s string) bool {
+	s = textproto.TrimString(s)
+	if strings.HasSuffix(s, "GMT") || strings.HasSuffix(s, "UTC") {
+		return true
+	}
+	return s != "" && s[len(s)-1] >= '0' && s[len(s)-1] <= '9' && !strings.ContainsAny(s, "+,")
 }
 
 // RawDeltaSeconds is a string that represents a delta time in seconds,
